@@ -3,7 +3,7 @@ import numpy as np
 
 from .. import graphs as G
 from .. import rng as rngmod
-from .common import call, close
+from .common import call, close, layout_variants_agree
 
 PROP = 'C06'
 FUNCS = ['randmio_und_signed', 'randmio_dir_signed', 'null_model_und_sign', 'null_model_dir_sign']
@@ -161,5 +161,8 @@ def run(case, bct, REC):
         else:
             for itr in (0, 1, 5):
                 one(REC, bct, f, W, {'itr': itr}, rngmod.make_rng(d))
+    if n <= 9:
+        a = (1, .5) if f.startswith('null_model') else (1,)
+        layout_variants_agree(REC, PROP, f, getattr(bct, f), W, args=a, make_kwargs=lambda: {'seed': rngmod.make_rng({'kind': 'spy', 'seed': 3})})
     REC.sample(PROP, {'kind': 'single', 'f': f, 'W': W if n <= 7 else [case['n'], case['dens'], case['scheme'], case['ms']],
                       'rngs': descrs})
